@@ -89,6 +89,7 @@ class Task:
         self.next_exc: BaseException | None = None
         self.abort: Callable[[], None] | None = None  # set while blocked
         self.started = False
+        self.yielded = False  # parked at a plain checkpoint (not blocked on anything)
         self.done = False
         self.result: Any = None
         self.exc: BaseException | None = None
@@ -246,6 +247,12 @@ class Kernel:
         task.started = True
         value, exc = task.next_value, task.next_exc
         task.next_value = task.next_exc = None
+        if task.yielded:
+            # a cancellation that arrived while the task was parked at a plain checkpoint is
+            # delivered when it resumes (trio checks after the yield; asyncio's task.cancel())
+            task.yielded = False
+            if exc is None and task.effectively_cancelled():
+                exc = Cancelled()
         try:
             if exc is not None:
                 trap = task.ctx.run(task.coro.throw, exc)
@@ -269,6 +276,7 @@ class Kernel:
                     self.reschedule(task, exc=Cancelled())
                 else:
                     self.reschedule(task)
+                    task.yielded = True
             elif trap.kind == "block_nocancel":
                 pass
             elif trap.kind == "sleep":
@@ -279,6 +287,7 @@ class Kernel:
                     self.reschedule(task, exc=Cancelled())
                 elif nonpos:
                     self.reschedule(task)
+                    task.yielded = True
                 elif isinstance(delay, float) and delay == math.inf:
                     task.abort = lambda: None
                 else:
